@@ -316,6 +316,103 @@ Theorem C18_admissible_wla_complete : forall W s calls adm i, (1 <= length W)%na
 Proof. exact wla_pick_complete. Qed.
 Print Assumptions C18_admissible_wla_complete.
 
+(* ================= the client's URL list changes between calls ================= *)
+(* Histories with [CConfig n] events (from now on len(urls) = n: the list shrank, grew or was
+   reordered); picks are recorded with the n in force.  [cfg_pos h]: every n is >= 1. *)
+
+(* RoundRobin: after any change, whatever the cursor was (e.g. resting past the new end): the
+   next call selects a configured server, with >= 2 servers the cursor is back in [0,n) after
+   that single call, and the n calls after it serve every server exactly once *)
+Theorem C18_rr_reconfigured : forall n idx, (1 <= n)%nat -> -1 <= idx ->
+  exists i idx', rr_pick n idx = Ok (i, idx') /\ (i < n)%nat /\ -1 <= idx' /\
+    ((2 <= n)%nat -> 0 <= idx' < Z.of_nat n) /\
+    exists l idx'', rr_run n n idx' = Ok (l, idx'') /\ forall j, (j < n)%nat -> count j l = 1.
+Proof. exact rr_reconfigured. Qed.
+Print Assumptions C18_rr_reconfigured.
+
+Theorem C18_index_valid_rr_reconfigured : forall h n, (1 <= n)%nat -> cfg_pos h ->
+  match run_cfg rr_machine n rr_init [] h with
+  | Ok (ps, (idx, _)) => Forall (fun p => (fst p < snd p)%nat) ps /\ -1 <= idx
+  | BadScript => True
+  | _ => False
+  end.
+Proof. exact rr_cfg_history_valid. Qed.
+Print Assumptions C18_index_valid_rr_reconfigured.
+
+Theorem C18_index_valid_random_reconfigured : forall h n, (1 <= n)%nat -> cfg_pos h ->
+  match run_cfg rnd_machine n tt [] h with
+  | Ok (ps, _) => Forall (fun p => (fst p < snd p)%nat) ps
+  | BadScript => True
+  | _ => False
+  end.
+Proof. exact rnd_cfg_history_valid. Qed.
+Print Assumptions C18_index_valid_random_reconfigured.
+
+(* LeastActive (with the make+copy growth of /repo 905f441): every pick is a current slot, the
+   counters are the in-flight counts of their slots throughout (calls started under an older,
+   longer or shorter list included), zero at quiescence, and the pick is least active *)
+Theorem C18_index_valid_la_reconfigured : forall h n, (1 <= n)%nat -> cfg_pos h ->
+  match run_cfg la_machine n [] [] h with
+  | Ok (ps, (a, calls)) => Forall (fun p => (fst p < snd p)%nat) ps /\ la_G a calls
+  | BadScript => True
+  | _ => False
+  end.
+Proof. exact la_cfg_history_G. Qed.
+Print Assumptions C18_index_valid_la_reconfigured.
+
+Theorem C18_actives_conserved_reconfigured : forall h n ps a calls, (1 <= n)%nat -> cfg_pos h ->
+  run_cfg la_machine n [] [] h = Ok (ps, (a, calls)) ->
+  (forall j, (j < length a)%nat -> nth_error a j = Some (Z.of_nat (cnt j calls))) /\
+  (all_finished calls -> Forall (fun x => x = 0) a).
+Proof. exact la_cfg_conserved. Qed.
+Print Assumptions C18_actives_conserved_reconfigured.
+
+Theorem C18_least_active_min_reconfigured : forall h n ps a calls m r i a',
+  (1 <= n)%nat -> cfg_pos h -> (1 <= m)%nat ->
+  run_cfg la_machine n [] [] h = Ok (ps, (a, calls)) -> la_start m a r = Ok (i, a') ->
+  forall j, (j < m)%nat -> (cnt i calls <= cnt j calls)%nat.
+Proof. exact la_cfg_min. Qed.
+Print Assumptions C18_least_active_min_reconfigured.
+
+(* The code before /repo 905f441 grew the counter slice with make alone: with one call in
+   flight on slot 0 and the list growing from 2 to 3 the counters were dropped, and when the
+   call finished its counter stayed at -1 although nothing was in flight (every later call then
+   went to that server).  The repaired growth keeps [1;0] as [1;0;0]. *)
+Theorem C18_actives_conserved_grow_old_refuted :
+  la_G [1; 0] [Some O] /\ la_prepare_old 3 [1; 0] = [0; 0; 0] /\
+  add_at (la_prepare_old 3 [1; 0]) 0 (-1) = Ok [-1; 0; 0] /\ all_finished (upd_nth 0 None [Some O]) /\
+  la_prepare 3 [1; 0] = [1; 0; 0].
+Proof. exact la_grow_old_witness. Qed.
+Print Assumptions C18_actives_conserved_grow_old_refuted.
+
+(* The four weighted balancers keep the server list they were built with: for a machine that
+   does not depend on n, configuration changes are no-ops *)
+Theorem C18_weighted_ignore_reconfiguration : forall S (m : machine S) h n s calls,
+  forget_n (run_cfg (fun _ => m) n s calls h) = run m s calls (strip_cfg h).
+Proof. exact @run_cfg_const. Qed.
+Print Assumptions C18_weighted_ignore_reconfiguration.
+
+(* ================= RoundRobin's cursor under concurrent callers ================= *)
+(* The true invariant of the two-step LTS, for every schedule of any number of callers:
+   -1 <= cursor <= n-1 + (number of callers between their AddInt64 and their StoreInt64). *)
+Theorem C18_rr_cursor_invariant : forall n, (1 <= n)%nat -> forall sched cs cs',
+  (-1 <= rr_shared cs <= Z.of_nat n - 1 + Z.of_nat (owing (rr_threads cs)) /\
+   Forall (rr_pc_ok n) (rr_threads cs)) ->
+  rr_crun n cs sched = Some cs' ->
+  -1 <= rr_shared cs' <= Z.of_nat n - 1 + Z.of_nat (owing (rr_threads cs')) /\
+  Forall (rr_pc_ok n) (rr_threads cs').
+Proof. exact rr_crun_cursor. Qed.
+Print Assumptions C18_rr_cursor_invariant.
+
+(* Hence after any burst, once nobody is inside getIndex, the cursor rests in [-1,n) and the
+   next n sequential calls serve every server exactly once. *)
+Theorem C18_rr_fair_after_burst : forall n, (1 <= n)%nat -> forall sched cs cs',
+  rr_cursor_inv n cs -> rr_crun n cs sched = Some cs' -> rr_quiescent cs' ->
+  -1 <= rr_shared cs' < Z.of_nat n /\
+  exists l idx', rr_run n n (rr_shared cs') = Ok (l, idx') /\ forall i, (i < n)%nat -> count i l = 1.
+Proof. exact rr_fair_after_burst. Qed.
+Print Assumptions C18_rr_fair_after_burst.
+
 (* ================= non-vacuity ================= *)
 Example wrr_two_cycles :
   exists c s0, wrr_new [4; 2; 6] = Ok (c, s0) /\ wr_gcd c = 2 /\
@@ -372,3 +469,30 @@ Example wla_weighted_tie :
   wla_pick s0 0 = Ok (0%nat, {| wl_act := [1; 0]; wl_eff := [1; 3] |}) /\
   wla_pick s0 1 = Ok (1%nat, {| wl_act := [0; 1]; wl_eff := [1; 3] |}).
 Proof. eexists. split; [reflexivity|]. vm_compute. repeat split; reflexivity. Qed.
+
+Example rr_shrinks_with_cursor_past_the_end :
+  (* four servers, one full cycle (the cursor rests on 3), the list shrinks to three *)
+  run_cfg rr_machine 4 rr_init []
+    [CEv (EStart 0); CEv (EStart 0); CEv (EStart 0); CEv (EStart 0); CConfig 3;
+     CEv (EStart 0); CEv (EStart 0); CEv (EStart 0); CEv (EStart 0); CEv (EStart 0)]
+  = Ok ([(0, 4); (1, 4); (2, 4); (3, 4); (0, 3); (1, 3); (2, 3); (0, 3); (1, 3)]%nat,
+        (1, [Some 0; Some 1; Some 2; Some 3; Some 0; Some 1; Some 2; Some 0; Some 1]%nat)).
+Proof. vm_compute. reflexivity. Qed.
+
+Example rr_two_callers_past_the_end :
+  (* n = 3, cursor on 2: callers 0 and 1 both add (3, then 4) before either stores *)
+  rr_cursor_inv 3 {| rr_shared := 2; rr_threads := [RStart; RStart] |} /\
+  rr_crun 3 {| rr_shared := 2; rr_threads := [RStart; RStart] |} [0; 1]%nat
+    = Some {| rr_shared := 4; rr_threads := [RStore; RStore] |} /\
+  rr_crun 3 {| rr_shared := 2; rr_threads := [RStart; RStart] |} [0; 1; 0; 1]%nat
+    = Some {| rr_shared := 0; rr_threads := [RDone 0; RDone 0] |}.
+Proof.
+  split; [|split; vm_compute; reflexivity].
+  split; [cbn; lia|repeat constructor].
+Qed.
+
+Example la_grows_with_a_call_in_flight :
+  run_cfg la_machine 2 [] []
+    [CEv (EStart 0); CConfig 3; CEv (EStart 0); CEv (EFinish 1 OOk); CEv (EFinish 0 OErr)]
+  = Ok ([(0, 2); (1, 3)]%nat, ([0; 0; 0], [None; None])).
+Proof. vm_compute. reflexivity. Qed.
